@@ -121,7 +121,9 @@ pub fn gen_case(seed: u64, idx: u64, pairs: usize) -> Case {
         files[f].push((k, if mode == Mode::Set { 0 } else { v }));
         made += 1;
     }
-    let input = Input { mode, files };
+    // a file need not end with a newline (its last line is a line all the same)
+    let trailing_newline: Vec<bool> = (0..nfiles).map(|_| !rng.chance(1, 3)).collect();
+    let input = Input { mode, files, trailing_newline };
     let total = input.rows() as u32;
     let mut runs = Vec::new();
     for _ in 0..pairs {
@@ -186,6 +188,9 @@ fn account(st: &mut WStats, idx: u64, case: &Case, run: &crate::world::CaseRun) 
     st.cases += 1;
     let mut input_d = Digest::new();
     input_d.str(&case_to(&Case { input: case.input.clone(), runs: vec![] }).to_string());
+    if case.input.trailing_newline.iter().any(|b| !*b) {
+        bump(&mut st.counters, "input.file_without_trailing_newline", 1);
+    }
     let input_digest = input_d.finish();
     for (i, inv) in run.invocations.iter().enumerate() {
         st.invocations += 1;
@@ -402,11 +407,22 @@ fn minimise(case: &Case, oracle: &str, root: &Path) -> (Case, u64) {
         while cur.input.files.len() > 1 && f < cur.input.files.len() {
             let mut c = cur.clone();
             let rows = c.input.files.remove(f);
+            if f < c.input.trailing_newline.len() {
+                c.input.trailing_newline.remove(f);
+            }
             c.input.files[0].extend(rows);
             if fails(&c) {
                 cur = c;
             } else {
                 f += 1;
+            }
+        }
+        // every file ends with a newline again, if the failure allows it
+        if cur.input.trailing_newline.iter().any(|b| !*b) {
+            let mut c = cur.clone();
+            c.input.trailing_newline.clear();
+            if fails(&c) {
+                cur = c;
             }
         }
         // simpler keys and values
